@@ -408,8 +408,8 @@ AKRdyEnd(k, n) ==
   /\ UNCHANGED <<minfo, tq, owed, copying, chan, top, cust, done, stash>>
 
 \* the pump of k has been signalled (ReadyStateChan) after a RDY change / CLS
-AKRdyDone(k, at, now) ==
-  /\ cl' = IF Has(cl, k) THEN [cl EXCEPT ![k].sigAt = at, ![k].sigNow = now] ELSE cl
+AKRdyDone(k, at, now, sig) ==      \* sig: the count changed, so the pump was signalled (an unchanged RDY wakes nobody)
+  /\ cl' = IF Has(cl, k) /\ sig THEN [cl EXCEPT ![k].sigAt = at, ![k].sigNow = now] ELSE cl
   /\ UNCHANGED <<minfo, tq, owed, copying, chan, top, cust, done, stash>>
 
 \* C02: an accepted FIN/REQ/TOUCH did what it says to that message; a refused one did nothing
